@@ -5,7 +5,7 @@ _HB = ["contracts.heartbeat"]
 _FL = ["contracts.float_lemmas"]
 _API = ["contracts.api_zone", "contracts.api_ac", "contracts.api_airtouch"]
 MODULES = {
-    "C01": _SOCK,
+    "C01": _SOCK + ["contracts.at4_ext_timer", "contracts.at5_ctrl_status"],  # header factories: packet counter wrap (runs > 256 sends)
     "C02": _SOCK + _API + _HB,
     "C03": ["contracts.c06_crc", "contracts.frame_roundtrip", "contracts.comms_registry"] + _CODECS + _FL,
     "C04": _CODECS + _API + _FL,
